@@ -3,6 +3,7 @@ package alephium
 import (
 	"context"
 	"encoding/hex"
+	"time"
 
 	sdk "github.com/alephium/go-sdk"
 	"github.com/alephium/wormhole-fork/node/pkg/vaa"
@@ -60,9 +61,10 @@ func (w *Watcher) handleObsvRequest(ctx context.Context, logger *zap.Logger, cli
 				continue
 			}
 
+			now := time.Now().UnixMilli()
 			confirmed := make([]*reobservedEvent, 0)
 			for _, event := range events {
-				if event.header.Height+int32(event.confirmations) <= *currentHeight {
+				if isEventConfirmed(logger, event.unconfirmed, event.header, now, *currentHeight, w.isMainnet) {
 					logger.Info("re-observed event",
 						zap.String("txId", txId),
 						zap.String("blockHash", blockHash),
@@ -156,6 +158,10 @@ func (w *Watcher) getGovernanceEventsByTxId(
 		reobservedEvents = append(reobservedEvents, &reobservedEvent{
 			&contractEvent,
 			msg.consistencyLevel,
+			&UnconfirmedEvent{
+				&sdk.ContractEvent{BlockHash: event.BlockHash, TxId: txId, EventIndex: event.EventIndex, Fields: event.Fields},
+				msg,
+			},
 			header,
 			txId,
 		})
@@ -166,6 +172,7 @@ func (w *Watcher) getGovernanceEventsByTxId(
 type reobservedEvent struct {
 	*sdk.ContractEventByTxId
 	confirmations uint8
+	unconfirmed   *UnconfirmedEvent
 	header        *sdk.BlockHeaderEntry
 	txId          string
 }
